@@ -781,6 +781,66 @@ def _run(chk, K, h, model, quick, hasan=None):
         r.add(cid, cmds, post)
         truns.append(r)
 
+    # ================================================================ the deadline itself: seconds -> nanoseconds (yr_scanner_set_timeout, used by
+    # every entry point).  Model: timeout_ns regenerated from scanner.c with the C integer types explicit (timeout_ns_exact);
+    # failing-input search: evaluate it over candidate timeouts, replay the deviating ones on the implementation.
+    # Implementation: a looping rule with timeouts of several seconds through the rules-level and the scanner-level API must
+    # return ERROR_SCAN_TIMEOUT no earlier than t and no later than t + the bound; the scanner is usable afterwards.
+    cand = [1, 2, 3, 4, 5, 7, 8, 9, 10, 60, 1000, 1000000, 2 ** 31 - 1]
+    tns, _ = vlib.run_lines(model, ["lim timeoutns %d" % t_ for t_ in cand], timeout=120)
+    deviating = []
+    for t_, a_ in zip(cand, tns):
+        if not re.fullmatch(r"-?\d+", a_ or ""):
+            chk.violation("model", "model runner does not answer `lim timeoutns`: %r" % (a_ or "")[:80], {}, found_input=False)
+            break
+        if int(a_) != t_ * 10 ** 9:
+            deviating.append((t_, int(a_)))
+    if deviating:
+        chk.violation("model:timeout_ns", "yr_scanner_set_timeout as the source has it now does not turn seconds into nanoseconds: (timeout s, nanoseconds stored) %s "
+                      "(timeout_ns_exact)" % deviating[:8], {"deviating": deviating}, found_input=False)
+    tset = [3, 5] if quick else [2, 3, 4, 5, 7, 9, 10]
+    for t_, v_ in deviating:
+        if t_ <= 10 and t_ not in tset and len(tset) < (4 if quick else 12):
+            tset.append(t_)
+    long_only_lower = [] if quick else [60]
+    for t_ in tset + long_only_lower:
+        for api in ("rules", "scanner"):
+            cid = "t_deadline_%s_%d" % (api, t_)
+            cmds = ["newcompiler", "add " + R("rule a { condition: %s }" % deep), "getrules", "fill 97 1000"]
+            cmds += (["scanner", "stimeout %d" % t_, "sscan 0 0", "stimeout 1", "sscan 0 0"] if api == "scanner" else ["scan %d 0 0" % t_, "scan 1 0 0"])
+            cmds += ["destroy", "smoke"]
+            lower_only = t_ in long_only_lower
+            r_ = Runner(h, alarm=12 if lower_only else t_ + 1 + 4)
+
+            def post(lines, ans, cid=cid, cmds=cmds, t_=t_, api=api, lower_only=lower_only):
+                count("deadline", (api, t_))
+                c = crashed(lines)
+                sc = scans(lines)
+                replay_ = ["newcompiler", cmds[1], "getrules", "fill 97 1000"] + (["scanner", "stimeout %d" % t_, "sscan 0 0"] if api == "scanner" else ["scan %d 0 0" % t_])
+                if lower_only:
+                    if sc and sc[0].get("rc") == TO and sc[0]["ms"] < 10000:
+                        viol("deadline", "%s: a scan with a %d s timeout returns ERROR_SCAN_TIMEOUT after %d ms" % (cid, t_, sc[0]["ms"]), cid, replay_, lines)
+                    else:
+                        stats["agree"] += 1
+                    return
+                if c and "sig=14" in c and not sc:
+                    viol("deadline", "%s: a scan of a looping rule with a %d s timeout (%s API) is still running %d s later: the deadline is never reached"
+                         % (cid, t_, api, t_ + 5), cid, replay_, lines, timeout_s=t_)
+                    return
+                if not usable(cid, cmds, lines, "deadline"):
+                    return
+                bound = t_ * 1000 + 500
+                if len(sc) != 2 or sc[0].get("rc") != TO or not (t_ * 1000 - 20 <= sc[0]["ms"] <= bound):
+                    viol("deadline", "%s: a scan of a looping rule with a %d s timeout (%s API) returns rc=%s after %s ms; expected ERROR_SCAN_TIMEOUT between %d and %d ms"
+                         % (cid, t_, api, sc[0].get("rc") if sc else None, sc[0].get("ms") if sc else None, t_ * 1000 - 20, bound), cid, replay_, lines, timeout_s=t_)
+                elif sc[1].get("rc") != TO or not (980 <= sc[1]["ms"] <= 1500):
+                    viol("usable:deadline", "%s: after the timeout the next scan with a 1 s timeout returns rc=%s after %s ms" % (cid, sc[1].get("rc"), sc[1].get("ms")), cid, cmds, lines)
+                else:
+                    delays[cid] = {"timeout_ms": t_ * 1000, "elapsed_ms": sc[0]["ms"], "delay_ms": sc[0]["ms"] - t_ * 1000, "bound_ms": bound, "rc": sc[0]["rc"]}
+                    stats["agree"] += 1
+            r_.add(cid, cmds, post)
+            truns.append(r_)
+
     # ================================================================ regular-expression SIZE: every site of _yr_re_emit that narrows a code
     # distance to 16 bits, at the largest accepted and the smallest rejected size of the sub-expression (byte-exact: classes are
     # 34 bytes of code, literals 2, `.` 1).  The expected verdict is the MODEL's (Model/ReEmit.emit_fits: every stored offset fits
@@ -1048,7 +1108,7 @@ def _run(chk, K, h, model, quick, hasan=None):
     truns.append(asan_run)
 
     threads = [threading.Thread(target=r.run) for r in truns]
-    par = 4
+    par = 8
     t0 = time.time()
     for i in range(0, len(threads), par):
         for t in threads[i:i + par]:
